@@ -56,3 +56,31 @@ CHECKS["C14"] = {
     "note": "Calls into a sandbox that is not created are undefined and never made; a create after a failed create "
             "may abort. Trusted: TLC, harness/sbx_driver.cpp, vm backend, g++ 12.",
 }
+
+CHECKS["C12"] = {
+    "technique": "TLA+ Contract/Model (CallsContract/Calls): TLC enumerates every call tree within bounds and checks "
+                 "each step against the Contract; every tree executed on real sandboxes (vm/no-op/dylib x library/"
+                 "embedder TLS); TLC trace validation (dispatch mode)",
+    "text": "TLC enumerates all trees of nested invoke/callback/invoke chains within the depth/width/node bounds "
+            "(two sandboxes, two callbacks registered on both, stale-entry calls, at most one abort), proving the "
+            "transcribed interceptor/TLS logic against the Contract at every step; each tree is executed on real "
+            "rlbox_sandbox objects on three backends and both TLS configurations after several register/unregister "
+            "histories, and TLC validates every recorded crossing: the callback that ran is the one registered behind "
+            "the entry called, it received the executing sandbox, ran exactly once, arguments/results intact.",
+    "note": "Bounded tree shapes; argument fidelity limited to long-typed parameters here (see C11). Trusted: TLC, "
+            "harness/tree_driver.cpp, guestlib.c, vm backend, g++ 12.",
+}
+CHECKS["C19"] = {
+    "technique": "TLA+ Contract/Model (CallsContract/Calls): grammar of transition notifications as a stack machine; "
+                 "TLC enumerates all trees x abort positions; every tree executed with hooks and timing enabled; TLC "
+                 "trace validation (hooks mode)",
+    "text": "TLC enumerates every call tree within bounds with an abort injected at every argument-conversion, guest-"
+            "body, callback-body and callback-result-conversion position and checks the transcribed scope-exit logic "
+            "against the Contract; each tree is executed on real sandboxes built with RLBOX_TRANSITION_ACTION_IN/OUT "
+            "and RLBOX_MEASURE_TRANSITION_TIMES (vm, no-op, dylib; both TLS configurations) and TLC validates that "
+            "every notification appears at its grammar position with the right kind, function identity and "
+            "per-sandbox state, that every crossing is closed exactly once also when unwinding, and that the timing "
+            "records equal the completed crossings per sandbox.",
+    "note": "Argument-conversion aborts exist only on the foreign-ABI backend (native backends: callback-body and "
+            "guest-body aborts). Trusted: TLC, harness/tree_driver.cpp, vm backend, g++ 12.",
+}
